@@ -582,37 +582,25 @@ def rule_planner(program, ctx, prop=P, rid="C01.planner"):
         ctx.bad(finding_func(prop, rid, cm, "compile_match_from_query no longer iterates query_items", text="def compile_match_from_query(...)"))
         return
 
-    def branches(stmts):
-        if len(stmts) == 1 and isinstance(stmts[0], ast.If):
-            n = stmts[0]
-            yield n, n.body
-            if n.orelse:
-                yield from branches(n.orelse)
-            else:
-                yield n, []
+    # every path through one iteration of the dispatch loop adds a clause (path rule on the CFG: the shape of the decision list is free)
+    cfg = cfg_of(cm)
+    heads = [n for n in cfg.nodes_of(loop) if cfg.kind_of(n) == "loop"]
+    addn = cfg.stmt_nodes(lambda st: any(isinstance(c.func, ast.Attribute) and c.func.attr in ("add", "append") and dotted(c.func.value) == "filter_clauses" for c in own_calls(st)), kinds=("stmt",))
+    if not addn:
+        ctx.bad(finding_at(prop, rid, loop, "the residual compiler adds no clause at all"))
+    for h in heads:
+        starts = list(cfg.succ(h, {"t"}))
+        path = cfg.find_path(starts, [h], avoid_nodes=set(addn), kinds=NORMAL)
+        if path:
+            where = next((cfg.ast_of(n) for n in path if cfg.ast_of(n) is not None and cfg.kind_of(n) == "test"), loop)
+            labels = [norm(cfg.ast_of(n), 40) for n in path if cfg.ast_of(n) is not None][:4]
+            ctx.bad(finding_at(prop, rid, where, f"a residual branch adds no clause: a query item can pass through the dispatch without contributing a condition ({' -> '.join(labels)}): that "
+                               "condition is silently ignored", text="no clause"))
         else:
-            yield None, stmts
-
-    for test, body in branches(loop.body):
-        adds = [c for s in body for c in ast.walk(s) if isinstance(c, ast.Call) and isinstance(c.func, ast.Attribute) and c.func.attr == "add" and dotted(c.func.value) == "filter_clauses"]
-        cfgb = None
-        label = ast.unparse(test.test) if test is not None and body is test.body else "else"
-        if not body:
-            ctx.bad(finding_at(prop, rid, test, "a dispatch branch of the residual compiler has no else: unknown keys add no clause"))
-        elif not adds or any(isinstance(s, (ast.Continue, ast.Pass)) for s in body):
-            ctx.bad(finding_at(prop, rid, body[0], f"residual branch `{label}` adds no clause: that condition is silently ignored"))
-        else:
-            # every path through the branch adds: each nested if has an else with add
-            ok_all = True
-            for s in body:
-                if isinstance(s, ast.If):
-                    for sub in (s.body, s.orelse):
-                        if not any(isinstance(c, ast.Call) and isinstance(c.func, ast.Attribute) and c.func.attr == "add" for x in sub for c in ast.walk(x)):
-                            ok_all = False
-            if ok_all:
-                ctx.ok(rid, body[0], f"residual branch `{label}` adds a clause on every path")
-            else:
-                ctx.bad(finding_at(prop, rid, body[0], f"residual branch `{label}` adds a clause only on some paths"))
+            ctx.ok(rid, loop, "every query item adds a clause on every path through the dispatch")
+    for st in ast.walk(loop):
+        if isinstance(st, ast.Continue):
+            ctx.bad(finding_at(prop, rid, st, "a query item is skipped (`continue`) by the residual compiler"))
     # an empty clause set must not compile to a constant-true predicate silently: join of an empty set gives "" -> syntax error (fail closed)
     for st in walk_no_nested(cm):
         if isinstance(st, ast.Assign) and isinstance(st.value, (ast.IfExp, ast.BoolOp)) and "filter_clauses" in ast.unparse(st.value) and "True" in ast.unparse(st.value):
